@@ -59,7 +59,13 @@ Register-ArgumentCompleter -Native -CommandName '{bin_name}' -ScriptBlock {{
 
 // Escape string inside single quotes
 fn escape_string(string: &str) -> String {
-    string.replace('\'', "''").replace('’', "'’")
+    // PowerShell reads `‘`, `’`, `‚` and `‛` as single quotes too
+    string
+        .replace('\'', "''")
+        .replace('‘', "'‘")
+        .replace('’', "'’")
+        .replace('‚', "'‚")
+        .replace('‛', "'‛")
 }
 
 fn escape_help<T: ToString>(help: Option<&StyledStr>, data: T) -> String {
